@@ -41,6 +41,17 @@ func verifyFunction(p *Program, fn *ssa.Function, c *FuncContract, emit func(*Ob
 	}
 	fe.findLoops()
 	fe.numberSites()
+	for _, cg := range c.CallGhosts {
+		n := 0
+		for in, o := range fe.callOrd {
+			if ci, ok := in.(ssa.CallInstruction); ok && calleeShortName(ci.Common()) == cg.Callee && o > n {
+				n = o
+			}
+		}
+		if cg.Ordinal < 1 || cg.Ordinal > n {
+			fe.errorf("contract refers to call %s#%d but %s contains %d such call(s)", cg.Callee, cg.Ordinal, fn, n)
+		}
+	}
 	for n := range c.LoopInv {
 		if n < 1 || n > len(fe.loops) {
 			fe.errorf("contract names loop %d but %s has %d loops", n, fn, len(fe.loops))
@@ -122,6 +133,13 @@ func contractTags(c *FuncContract) []string {
 	}
 	add(c.Requires)
 	add(c.Ensures)
+	for _, cg := range c.CallGhosts {
+		for _, t := range cg.Tags {
+			if t != "support" {
+				set[t] = true
+			}
+		}
+	}
 	for _, l := range c.LoopInv {
 		add(l)
 	}
@@ -365,6 +383,29 @@ func (fe *FnExec) evalModLoc(env *Env, ml ModLoc) ([]modEntry, error) {
 			return nil, err
 		}
 		return []modEntry{{kind: "pix", key: "elems:uint16", ref: refOf(x), text: ml.Text}}, nil
+	case "any":
+		// every location of a struct type's fields, or every element array of an element type
+		t, err := fe.P.resolveType(ml.Name, env.pkg)
+		if err != nil {
+			return nil, err
+		}
+		keys := map[string]*Sort{}
+		if isStructByValue(t) {
+			fe.keysOfStruct(t, keys)
+			for _, k := range fe.P.ghostKeysOf(typeKey(t)) {
+				g := fe.P.Ghosts[k]
+				fe.keysOfField(typeKey(t), g.Name, g.Type, keys)
+			}
+		} else if cs, err := compsOf(t); err == nil {
+			for _, c := range cs {
+				keys[elemKey(t)+c.suffix] = SArray(SInt, SArray(SInt, c.sort))
+			}
+		}
+		var out []modEntry
+		for _, k := range sortedKeys(keys) {
+			out = append(out, modEntry{kind: "key", key: k, text: ml.Text, sort: keys[k]})
+		}
+		return out, nil
 	}
 	return nil, fmt.Errorf("unsupported modifies kind %s", ml.Kind)
 }
@@ -413,6 +454,10 @@ func (fe *FnExec) allowedWrite(st *State, key string, ref Term) Term {
 		case "pix":
 			if key == m.key {
 				alts = append(alts, Eq(App(SInt, "owner", ref), m.ref))
+			}
+		case "key":
+			if key == m.key {
+				return TTrue
 			}
 		}
 	}
